@@ -870,3 +870,12 @@ pub fn crowded_armies() -> Vec<Pos> {
     }
     out
 }
+
+/// Positions with far more legal moves than any game position usually has (the 218-move
+/// construction with nine queens, and its colour-swapped rotated image): like pieces reaching the
+/// same squares from many files and ranks, move lists longer than 128 entries.
+pub fn many_queens() -> Vec<Pos> {
+    let p = Pos::from_fen("R6R/3Q4/1Q4Q1/4Q3/2Q4Q/Q4Q2/pp1Q4/kBNN1KB1 w - - 0 1").unwrap();
+    let m = p.mirrored_rot180();
+    vec![p, m]
+}
